@@ -12,6 +12,7 @@ mod probes;
 mod rng;
 mod rules;
 mod shrink;
+mod surface;
 mod trace;
 
 use exec::{prop_index, Exec, PROPS};
@@ -283,6 +284,7 @@ fn cmd_replay(a: &Args) -> i32 {
     let j = json::parse(&text).unwrap_or_else(|e| die(&format!("{}: {}", path, e)));
     let tj = j.get("trace").unwrap_or(&j);
     let trace = Trace::from_json(tj).unwrap_or_else(|e| die(&format!("{}: {}", path, e)));
+    apimon::set_full_surface(prop == "C18");
     let res = Exec::run(&trace);
     let mut hit = false;
     for v in res.violations.iter() {
@@ -351,6 +353,7 @@ fn cmd_run(a: &Args) -> i32 {
         None => die("run needs --property, one of C07 C08 C10 C11 C12 C13 C14 C15 C16 C17 C18"),
     };
     let pi = prop_index(prop).unwrap();
+    apimon::set_full_surface(prop == "C18");
     let tier = a.get("tier").map(|s| s.to_string()).or_else(|| std::env::var("VERIF_TIER").ok()).unwrap_or_else(|| "quick".into());
     let tier = if tier == "thorough" { "thorough" } else { "quick" };
     let seed: u64 = a.num("seed").or_else(|| std::env::var("VERIF_SEED").ok().and_then(|s| s.trim().parse().ok())).unwrap_or(1);
@@ -575,7 +578,7 @@ fn evidence_json(
     cov.put("profile", J::s(profile));
     cov.put("simulated_time_ns_finite_part", J::Str(p.sim_time_ns.to_string()));
     cov.put("infinite_clock_jumps", J::u(p.infinite_jumps));
-    cov.put("events", J::obj().set("deliveries", J::u(p.deliveries)).set("polls", J::u(p.polls)).set("resets", J::u(p.resets)).set("clock_advances", J::u(p.advances)).set("forks", J::u(p.forks)).set("snapshots", J::u(p.snapshots)).set("restores", J::u(p.restores)).set("enc_cc14", J::u(p.enc_cc14)).set("enc_pn", J::u(p.enc_pn)).set("ingest_rejected", J::u(p.ingest_rejected)).set("ingest_mismatch", J::u(p.ingest_mismatch)));
+    cov.put("events", J::obj().set("deliveries", J::u(p.deliveries)).set("polls", J::u(p.polls)).set("resets", J::u(p.resets)).set("clock_advances", J::u(p.advances)).set("forks", J::u(p.forks)).set("snapshots", J::u(p.snapshots)).set("restores", J::u(p.restores)).set("enc_cc14", J::u(p.enc_cc14)).set("enc_pn", J::u(p.enc_pn)).set("ingest_rejected", J::u(p.ingest_rejected)).set("ingest_mismatch", J::u(p.ingest_mismatch)).set("factory_rebuild_mismatch", J::u(p.factory_rebuild_mismatch)));
     cov.put("reports", J::obj().set("cc14", J::u(p.reports_cc14)).set("pn", J::u(p.reports_pn)).set("polling_feed", J::u(p.reports_polling_feed)).set("polling_poll", J::u(p.reports_polling_poll)));
     let mut ff = J::obj();
     let mut fl = J::obj();
@@ -658,8 +661,8 @@ fn evidence_json(
         cov.put(
             "api_surface_not_driven",
             J::arr([
-                J::s("most of the ~150 generated From/TryFrom impls between primitives and the newtypes"),
-                J::s("time-code quarter-frame constructors/accessors, KeyNumber/U4 APIs, key/velocity/program/pressure accessors beyond the generic calls listed"),
+                J::s("TimeCodeQuarterFrame/TimeCodeType accessors beyond From<U7>; test_util shorthands; from_bytes_unchecked/new_unchecked (unsafe)"),
+                J::s("documented panics other than ControlChange14BitMessage::new(cn > 31): out-of-range arguments to newtype ::new, wrong category for the generic factory constructors"),
                 J::s("serde (feature not built)"),
             ]),
         );
